@@ -64,7 +64,7 @@ Proof.
   - destruct (word s =? cur); eapply SIMPLE; exact E.
   - destruct ((kind =? 1) && timeouts s); [eapply SIMPLE; exact E | discriminate].
   - destruct (word s =? v); [|destruct pos]; eapply SIMPLE; exact E.
-  - destruct (word s =? 1); eapply SIMPLE; exact E.
+  - destruct (word s =? wrap_s 32 n); eapply SIMPLE; exact E.
   - destruct (1 <? word s); eapply SIMPLE; exact E.
 Qed.
 
@@ -117,7 +117,7 @@ Proof.
     + eapply SIMPLE; [exact E | apply NX | apply NX].
     + eapply SIMPLE; [exact E | cbn; intros _; right; exists v; reflexivity | cbn; intros ? ?; discriminate].
     + eapply SIMPLE; [exact E | apply NX | apply NX].
-  - destruct (word s =? 1).
+  - destruct (word s =? wrap_s 32 n).
     + eapply SIMPLE; [exact E | cbn; intros [] | cbn; intros ? ?; discriminate].
     + eapply SIMPLE; [exact E | apply NX | apply NX].
   - eapply SIMPLE; [exact E | apply NX | apply NX].
@@ -260,7 +260,7 @@ Proof.
     + apply Z.eqb_eq in Ew. exists v. split; [left; exists pos; reflexivity | exact Ew].
     + exfalso; eapply NOLOG; [|eapply SIMPLE; exact E]; reflexivity.
     + pose proof (SIMPLE _ _ _ E) as ->. rewrite NX in R. cbn in R. tagfail R.
-  - destruct (word s =? 1); exfalso; (eapply NOLOG; [|eapply SIMPLE; exact E]); rewrite ?NX; reflexivity.
+  - destruct (word s =? wrap_s 32 n); exfalso; (eapply NOLOG; [|eapply SIMPLE; exact E]); rewrite ?NX; reflexivity.
   - pose proof (SIMPLE _ _ _ E) as ->. rewrite NX in R. cbn in R. tagfail R.
   - destruct (1 <? word s); exfalso; (eapply NOLOG; [|eapply SIMPLE; exact E]); reflexivity.
   - pose proof (SIMPLE _ _ _ E) as ->. rewrite NX in R. cbn in R. tagfail R.
